@@ -11,6 +11,23 @@ pub struct Trace<'a, V> {
     pub(crate) values: Vec<&'a V>,
 }
 
+/// Read-only accessors for the proof harnesses (the fields are crate-private).
+#[cfg(kani)]
+impl<'a, V> Trace<'a, V> {
+    pub fn verif_matched(&self) -> bool {
+        self.matched
+    }
+    pub fn verif_count(&self) -> u64 {
+        self.count
+    }
+    pub fn verif_children(&self) -> &Vec<Trace<'a, V>> {
+        &self.children
+    }
+    pub fn verif_values(&self) -> &Vec<&'a V> {
+        &self.values
+    }
+}
+
 impl<V> Leaf<V> {
     pub fn trace(&self, haystack: &str) -> Trace<V> {
         let matched = self.regex.is_match(haystack);
